@@ -110,13 +110,15 @@ type World struct {
 	pkg        *types.Package
 	floatConst map[string]string
 	floatOrd   []string
+	methods    map[string]bool // method names used by hasMethod
+	methodOrd  []string
 	extraDecls []string // uninterpreted spec functions, conversion symbols
 	extraSeen  map[string]bool
 }
 
 func newWorld(pkg *types.Package) *World {
 	return &World{typeConsts: map[string]types.Type{}, strConsts: map[string]string{}, structs: map[string]*structInfo{},
-		ifaces: map[string]*types.Interface{}, pkg: pkg, floatConst: map[string]string{}, extraSeen: map[string]bool{}}
+		ifaces: map[string]*types.Interface{}, pkg: pkg, floatConst: map[string]string{}, extraSeen: map[string]bool{}, methods: map[string]bool{}}
 }
 
 func (w *World) declare(key, decl string) {
@@ -175,8 +177,20 @@ func (w *World) ifaceConst(name string, it *types.Interface) string {
 	if _, ok := w.ifaces[n]; !ok {
 		w.ifaces[n] = it
 		w.ifaceOrd = append(w.ifaceOrd, n)
+		for i := 0; i < it.NumMethods(); i++ {
+			w.methodPred(it.Method(i).Name())
+		}
 	}
 	return n
+}
+
+// methodPred names the predicate "the dynamic type has an (exported or package-level) method with this name".
+func (w *World) methodPred(name string) string {
+	if !w.methods[name] {
+		w.methods[name] = true
+		w.methodOrd = append(w.methodOrd, name)
+	}
+	return "hasMethod_" + name
 }
 
 func (w *World) strConst(lit string) string {
@@ -414,6 +428,38 @@ func (w *World) prelude() string {
 	b.WriteString("(declare-fun kindOf (Type) Int)\n(declare-fun comparableT (Type) Bool)\n(declare-fun elemT (Type) Type)\n(declare-fun exactEqT (Type) Bool)\n")
 	for _, n := range w.ifaceOrd {
 		b.WriteString(fmt.Sprintf("(declare-const %s IfaceName)\n", n))
+	}
+	// method predicates: an interface is satisfied exactly by the types that have all its methods
+	for _, m := range w.methodOrd {
+		b.WriteString(fmt.Sprintf("(declare-fun hasMethod_%s (Type) Bool)\n", m))
+	}
+	for _, in := range w.ifaceOrd {
+		it := w.ifaces[in]
+		if it.NumMethods() == 0 {
+			continue
+		}
+		var ms []string
+		for i := 0; i < it.NumMethods(); i++ {
+			ms = append(ms, fmt.Sprintf("(hasMethod_%s t)", it.Method(i).Name()))
+		}
+		b.WriteString(fmt.Sprintf("(assert (forall ((t Type)) (! (= (implements t %s) %s) :pattern ((implements t %s)))))\n", in, and(ms...), in))
+	}
+	for _, m := range w.methodOrd {
+		for _, tn := range w.typeOrder {
+			t := w.typeConsts[tn]
+			has := false
+			ms := types.NewMethodSet(t)
+			for i := 0; i < ms.Len(); i++ {
+				if ms.At(i).Obj().Name() == m {
+					has = true
+				}
+			}
+			if has {
+				b.WriteString(fmt.Sprintf("(assert (hasMethod_%s %s))\n", m, tn))
+			} else {
+				b.WriteString(fmt.Sprintf("(assert (not (hasMethod_%s %s)))\n", m, tn))
+			}
+		}
 	}
 	// implements facts for known types
 	for _, in := range w.ifaceOrd {
